@@ -14,11 +14,13 @@ import Driver.CtxStoreD
 import Driver.TlsPolicyD
 import Driver.RelayD
 import Driver.LifeD
+import Driver.UtlsD
 
 def main (args : List String) : IO UInt32 := do
   match args with
   | ["attrmap"] => Driver.AttrMapD.main; return 0
   | ["life"] => Driver.LifeD.main; return 0
+  | ["utls"] => Driver.UtlsD.main; return 0
   | ["relay"] => Driver.RelayD.main; return 0
   | ["tlspolicy"] => Driver.TlsPolicyD.main; return 0
   | ["ctxstore"] => Driver.CtxStoreD.main; return 0
